@@ -562,12 +562,49 @@ pub fn c12subs() -> bool {
     bad
 }
 
+/// C03 (future bound, both ingress paths): an entry stamped 15 minutes ahead of the local clock is refused as a single remote
+/// insert AND inside a reconciliation message; one stamped 5 minutes ahead is accepted on both.
+pub fn c03clock() -> bool {
+    let mut bad = false;
+    let ns = NamespaceSecret::from_bytes(&[81u8; 32]);
+    let author = Author::from_bytes(&[82u8; 32]);
+    let nsid = ns.id();
+    let now = std::time::SystemTime::now().duration_since(std::time::UNIX_EPOCH).unwrap().as_micros() as u64;
+    let mk = |key: &[u8], ts: u64| SignedEntry::from_entry(Entry::new(RecordIdentifier::new(nsid, author.id(), key), Record::new(Hash::new(key), 1 + key.len() as u64, ts)), &ns, &author);
+    let min = 60_000_000u64;
+    for via_message in [false, true] {
+        let mut store = Store::memory();
+        store.import_namespace(ns.clone().into()).unwrap();
+        let mut replica = store.open_replica(&nsid).unwrap();
+        let far = mk(b"far", now + 15 * min);
+        let near = mk(b"near", now + 5 * min);
+        if via_message {
+            let range = Range::new(RecordIdentifier::default(), RecordIdentifier::default());
+            let msg = message(vec![MessagePart::RangeItem(RangeItem { range, values: vec![(far.clone(), ContentStatus::Complete), (near.clone(), ContentStatus::Complete)], have_local: true })]);
+            let mut outcome = SyncOutcome::default();
+            let _ = block_on(replica.sync_process_message(msg, [9u8; 32], &mut outcome));
+        } else {
+            let _ = block_on(replica.insert_remote_entry(far.clone(), [9u8; 32], ContentStatus::Complete));
+            let _ = block_on(replica.insert_remote_entry(near.clone(), [9u8; 32], ContentStatus::Complete));
+        }
+        drop(replica);
+        let has_far = store.get_exact(nsid, author.id(), b"far", true).unwrap().is_some();
+        let has_near = store.get_exact(nsid, author.id(), b"near", true).unwrap().is_some();
+        if has_far || !has_near {
+            eprintln!("c03clock ({}): entry 15 min ahead stored: {has_far}; entry 5 min ahead stored: {has_near}", if via_message { "reconciliation message" } else { "single remote insert" });
+            bad = true;
+        }
+    }
+    bad
+}
+
 pub fn run(id: &str) -> Option<bool> {
     Some(match id {
         "d3" => d3(),
         "d6" => d6(),
         "c12" => c12(),
         "c12pm" => c12pm(),
+        "c03clock" => c03clock(),
         "c12subs" => c12subs(),
         "insglue" => insglue(),
         "c08range" => c08range(),
@@ -584,6 +621,7 @@ pub fn run(id: &str) -> Option<bool> {
         "c10steps" => crate::net::verif_codec::witness_c10steps(),
         "c18" => crate::store::fs::verif_incrate::witness_c18::run(),
         "c06" => crate::store::fs::verif_incrate::witness_c06::run(),
+        "c06dur" => crate::store::fs::verif_incrate::witness_c06dur::run(),
         "c15store" => crate::store::fs::verif_incrate::witness_c15::run(),
         _ => return None,
     })
